@@ -398,6 +398,14 @@ def gen_world(src, profile):
         a = src.pick(p_attrs)
         if a["default"][0] != "none" and not is_collection(a["type"]) and a["type"][0] not in ("spec",):
             mdesc["redefaults"] = {a["name"]: gen_value(src, a["type"], True)}
+            if profile.get("preparers", True) and a["type"][0] in PREPARERS and src.chance(1, 2):
+                # ... whose preparer the parent registered through `@<attr>.preparer` (it belongs to the attribute's
+                # specification, which the re-default must keep)
+                pdesc = world["classes"][-1]
+                pdesc.setdefault("prepare", {})[a["name"]] = src.pick(PREPARERS[a["type"][0]])
+                pdesc["prepare_style"] = "decorator"
+                if a["default"][0] in ("lit", "field_default"):
+                    a["default"] = ["attr_default"] + a["default"][1:]
     world["classes"].append(mdesc)
     for c in world["classes"]:
         d = [a["name"] for a in c["attrs"] if a.get("do_not_copy") == "decorator"]
@@ -411,10 +419,12 @@ def gen_world(src, profile):
                 continue
             for a in c["attrs"]:
                 T = a["type"]
-                if T[0] in PREPARERS and src.chance(1, 3 if T[0] == "spec" else 4):
+                if T[0] in PREPARERS and src.chance(1, 3 if T[0] == "spec" else 4) and a["name"] not in c.get("prepare", {}):
                     c.setdefault("prepare", {})[a["name"]] = src.pick(PREPARERS[T[0]])
                 if is_collection(T) and elem_type(T)[0] in ITEM_PREPARERS and src.chance(1, 3):
                     c.setdefault("prepare_item", {})[a["name"]] = src.pick(ITEM_PREPARERS[elem_type(T)[0]])
+            if (c.get("prepare") or c.get("prepare_item")) and src.chance(1, 3) and "prepare_style" not in c:
+                c["prepare_style"] = "decorator"  # registered through `@<attr>.preparer` where the attribute is declared with Attr(...)
 
     inst = "M"
     if profile.get("inheritance", True):
@@ -610,9 +620,15 @@ class World:
             for name, v in (c.get("redefaults") or {}).items():
                 ns[name] = self._default_obj(v)
             for name, how in (c.get("prepare") or {}).items():
-                ns[f"_prepare_{name}"] = self._preparer("prepare", name, how)
+                if c.get("prepare_style") == "decorator" and isinstance(ns.get(name), Attr):
+                    ns[name].preparer(self._preparer("prepare", name, how))  # the `@<attr>.preparer` spelling
+                else:
+                    ns[f"_prepare_{name}"] = self._preparer("prepare", name, how)
             for name, how in (c.get("prepare_item") or {}).items():
-                ns[f"_prepare_{SINGULAR[name]}"] = self._preparer("prepare_item", name, how)
+                if c.get("prepare_style") == "decorator" and isinstance(ns.get(name), Attr):
+                    ns[name].item_preparer(self._preparer("prepare_item", name, how))
+                else:
+                    ns[f"_prepare_{SINGULAR[name]}"] = self._preparer("prepare_item", name, how)
             if (desc.get("post_copy") and c["name"] == "M") or (desc.get("post_copy") == "nested" and c["name"] in ("U", "N")):
                 world = self
 
